@@ -454,6 +454,11 @@ def register_numpy():
                 except UnicodeDecodeError:
                     # bytes fast-path
                     data = hash_buffer_hex(b"-".join(x.flat))
+                # The joined text does not tell where one element ends:
+                # ['a-b', 'c'] and ['a', 'b-c'] join to the same string
+                data = data, hash_buffer_hex(
+                    np.fromiter(map(len, x.flat), dtype="i8", count=x.size)
+                )
             except (TypeError, UnicodeDecodeError):
                 return normalize_object(x)
         else:
